@@ -4,4 +4,4 @@
 // (`empty_talkback`) and is completed inside the subscribing call
 // with no members the member handler and `next` are unreachable
 //@vacuous-ok concat__source_talkback concat__next
-//@include concat_body.rs NCOND="c.n == 0" SINKTB=empty_talkback SKIP=sink_talkback
+//@include concat_body.rs NCOND="c.n == 0" LATE=false SINKTB=empty_talkback SKIP=sink_talkback
